@@ -14,6 +14,11 @@ THEOREMS = ["RootSim.C18." + t for t in [
     "gamma_small_nonneg_finite", "gamma_partial", "zipf_in_range", "xxtea_roundtrip", "xxtea_contract",
     "seed_function_of_lp_and_seed", "decode_zero_not_seeded", "seed_never_fixed_point", "seedState_ne_zero",
     "toyLibm_laws"]]
+THEOREMS_GAMMA = ["RootSim.C18." + t for t in [
+    "gamma_big_pinned_counterexample", "gamma_big_pinned_counterexample_fs", "gamma_big_pinned_nan_counterexample",
+    "gamma_big_finite_nonneg", "gamma_big_fixed_total", "gamma_big_pinned_partial", "toyLibm_laws2",
+    "gammaBigStatement_pinned_refuted", "gammaBigStatement_fixed", "gamma_statement_fixed",
+    "gammaStatementFull_pinned_refuted"]]
 THEOREMS_RAT = ["RootSim.C18.random_value_rat", "RootSim.C18.randomFixed_unit_interval_rat"]
 
 
@@ -63,10 +68,15 @@ def oracle_lines(ctx, orf):
 
 def run(ctx):
     ctx.trusted += [
-        "IEEE-754 binary64 round-to-nearest-even for *, - (modelled concretely by rneNat and compared bit-exactly "
-        "with the compiled C expressions by the correspondence run); floor and integer<->double casts exact",
+        "IEEE-754 binary64 round-to-nearest-even for *, -, +, / and the comparisons (modelled concretely by rneNat / divFin "
+        "and compared bit-exactly with the FPU by the correspondence run: compiled C expressions and `fop` lines on special "
+        "values, random bit patterns, ties, subnormal and overflowing results; one zero and one NaN in the model: -0.0 and "
+        "NaN payloads are canonicalised, no -0.0 operand); no fused multiply-add contraction (x86-64 baseline); floor and "
+        "integer<->double casts exact",
         "libm log/pow: only the three facts of LibmLaws (log of [2^-k,1] is finite in [-k,0]; pow(x in (0,1), y<0) "
         "is +inf or >= 1; pow(0, y<0) = +inf) are assumed, nothing else",
+        "libm sqrt/exp (rejection branch of Gamma): only LibmLaws2 (sqrt of a finite x >= 1 is finite with 1 <= sqrt x <= x; "
+        "exp is never negative, used by the +inf counter-example on the pinned code only); nothing is assumed of log there",
         "little-endian layout of uint64_t[4] viewed as uint32_t[8] (random_lib_lp_init)",
         "order of the two RandomRange calls inside RandomRangeNonUniform is the one gcc emits (left first); the "
         "range theorem is proved for both orders"]
@@ -76,15 +86,18 @@ def run(ctx):
         "pinned tree (finding F11 for min < 0)",
         "Zipf: -1/skew-1 finite and negative (skew > 0), limit < 2^32; termination of the rejection loops "
         "(Normal, Gamma>=6, Zipf) is NOT claimed",
-        "Gamma: only ia < 6 is modelled (partial)",
+        "Gamma: every order ia < 2^32 (an `unsigned`); ia >= 6 is proved for the code with the F14 repair (inner loop rejects "
+        "v1 == 0.0) and refuted for the code without it; the theorems are about the runs that return (every fuel)",
         "Expent(mean): 0 <= mean <= 2^1000"]
-    ok, _ = ctx.lean_build(["RootSim.Props.C18", "RootSim.Props.C18Rat"])
+    ok, _ = ctx.lean_build(["RootSim.Props.C18", "RootSim.Props.C18Gamma", "RootSim.Props.C18Rat"])
     ctx.token_audit()
     if ok:
         ctx.axiom_audit("RootSim.Props.C18", THEOREMS)
+        ctx.axiom_audit("RootSim.Props.C18Gamma", THEOREMS_GAMMA)
         ctx.axiom_audit("RootSim.Props.C18Rat", THEOREMS_RAT)
         if ctx.tier == "thorough":
             ctx.leanchecker("RootSim.Props.C18")
+            ctx.leanchecker("RootSim.Props.C18Gamma")
     rnd = os.path.join(vlib.REPO, "src", "lib", "random")
     if not ctx.cc("hc18", [os.path.join(vlib.HARNESS, "hc18.c"), os.path.join(rnd, "random.c"),
                            os.path.join(rnd, "xxtea.c")]):
@@ -113,10 +126,12 @@ def run(ctx):
         "rule": "one evaluation = one protocol line (real C function vs Lean definition, bit-exact): xoshiro steps, "
                 "Random() bit patterns for crafted raw outputs (all 0/1/2^k/2^k+-1/all-ones/truncation boundaries + "
                 "seeded random outputs with every leading-one position equally likely), seeding, XXTEA, RandomRange/"
-                "NonUniform with boundary arguments, 1-Random(), Random()*n, Gamma operand chains; non-trivial = "
+                "NonUniform with boundary arguments, 1-Random(), Random()*n, Gamma operand chains (ia < 6: x; ia >= 6: first pass "
+                "of the rejection branch: inner loop, v1, v2, y, am, 2am+1, for the code version observed on the implementation), "
+                "single binary64 operations (fop); non-trivial = "
                 "distinct boundary raw outputs + leading-one positions (distinct code paths of the conversion) covered",
         "input_distribution": stats})
-    ctx.kdiff(mode, "rand(next,bits,random,seed,xxtea,range,rrange,nonuni,onem,mul,gammax)", ops, cf)
+    ctx.kdiff(mode, "rand(next,bits,random,seed,xxtea,range,rrange,nonuni,onem,mul,gammax,gammabig1,fop)", ops, cf)
     allops = open(ops).read().splitlines()
     ctx.samples += allops[:1] + allops[30000:30002] + allops[-3:]
     oracle_lines(ctx, orf)
